@@ -1389,6 +1389,11 @@ impl Server {
         self.last_activity
     }
 
+    /// The client altered the session (SET, PREPARE) and `checkin_cleanup` has not reset it.
+    pub fn needs_cleanup(&self) -> bool {
+        self.cleanup_connections && self.cleanup_state.needs_cleanup()
+    }
+
     // Marks a connection as needing cleanup at checkin
     pub fn mark_dirty(&mut self) {
         self.cleanup_state.set_true();
